@@ -37,6 +37,13 @@ module Coq__1 = struct
 end
 include Coq__1
 
+(** val mul : nat -> nat -> nat **)
+
+let rec mul n m =
+  match n with
+  | O -> O
+  | S p -> add m (mul p m)
+
 (** val sub : nat -> nat -> nat **)
 
 let rec sub n m =
@@ -96,6 +103,14 @@ let rec remove eq_dec0 x = function
 | [] -> []
 | y :: tl ->
   if eq_dec0 x y then remove eq_dec0 x tl else y :: (remove eq_dec0 x tl)
+
+(** val count_occ : ('a1 -> 'a1 -> bool) -> 'a1 list -> 'a1 -> nat **)
+
+let rec count_occ eq_dec0 l x =
+  match l with
+  | [] -> O
+  | y :: tl ->
+    let n = count_occ eq_dec0 tl x in if eq_dec0 y x then S n else n
 
 (** val existsb : ('a1 -> bool) -> 'a1 list -> bool **)
 
@@ -826,7 +841,8 @@ let init p =
     (fun _ -> act0); bk = (fun _ -> fresh O); holder = HNone; ent = []; rdl =
     []; ovf = false }
 
-type ast = { ms : st; chain : nat list; pend : nat list; pobj : z; robj : z }
+type ast = { ms : st; chain : nat list; pend : nat list; pobj : z; robj : 
+             z; gens : nat list }
 
 (** val pc_eqb : pc -> pc -> bool **)
 
@@ -1100,17 +1116,26 @@ let op_of = function
 (** val with_ms : ast -> st -> ast **)
 
 let with_ms t s =
-  { ms = s; chain = t.chain; pend = t.pend; pobj = t.pobj; robj = t.robj }
+  { ms = s; chain = t.chain; pend = t.pend; pobj = t.pobj; robj = t.robj;
+    gens = t.gens }
 
 (** val with_chain : ast -> nat list -> ast **)
 
 let with_chain t l =
-  { ms = t.ms; chain = l; pend = t.pend; pobj = t.pobj; robj = t.robj }
+  { ms = t.ms; chain = l; pend = t.pend; pobj = t.pobj; robj = t.robj; gens =
+    t.gens }
 
 (** val with_pend : ast -> nat list -> ast **)
 
 let with_pend t l =
-  { ms = t.ms; chain = t.chain; pend = l; pobj = t.pobj; robj = t.robj }
+  { ms = t.ms; chain = t.chain; pend = l; pobj = t.pobj; robj = t.robj;
+    gens = t.gens }
+
+(** val with_gens : ast -> nat list -> ast **)
+
+let with_gens t l =
+  { ms = t.ms; chain = t.chain; pend = t.pend; pobj = t.pobj; robj = t.robj;
+    gens = l }
 
 (** val take : ast -> bool -> action -> (st -> bool) -> ast option **)
 
@@ -1132,7 +1157,7 @@ let observe t = function
 let learn_p t o =
   if Z.eqb t.pobj Z0
   then Some { ms = t.ms; chain = t.chain; pend = t.pend; pobj = o; robj =
-         t.robj }
+         t.robj; gens = t.gens }
   else if Z.eqb t.pobj o then Some t else None
 
 (** val learn_r : ast -> z -> ast option **)
@@ -1140,7 +1165,7 @@ let learn_p t o =
 let learn_r t o =
   if Z.eqb t.robj Z0
   then Some { ms = t.ms; chain = t.chain; pend = t.pend; pobj = t.pobj;
-         robj = o }
+         robj = o; gens = t.gens }
   else if Z.eqb t.robj o then Some t else None
 
 (** val bind : ast option -> (ast -> ast option) -> ast option **)
@@ -1294,6 +1319,21 @@ let accept_kind t k a0 obj v =
                   else t) (at_ru p) (Step a0) (fun _ -> true)
    | KRQueue -> observe t ((||) (at_rl p) (mem a0 t.chain)))
 
+(** val gen_of : ast -> nat -> nat **)
+
+let gen_of t a0 =
+  count_occ Nat.eq_dec t.gens a0
+
+(** val mactor : ast -> nat -> nat **)
+
+let mactor t a0 =
+  add a0
+    (mul (S (S (S (S (S (S (S (S (S (S (S (S (S (S (S (S (S (S (S (S (S (S (S
+      (S (S (S (S (S (S (S (S (S (S (S (S (S (S (S (S (S (S (S (S (S (S (S (S
+      (S (S (S (S (S (S (S (S (S (S (S (S (S (S (S (S (S
+      O))))))))))))))))))))))))))))))))))))))))))))))))))))))))))))))))
+      (gen_of t a0))
+
 (** val accept_ev : ast -> z list -> ast option **)
 
 let accept_ev t = function
@@ -1310,15 +1350,25 @@ let accept_ev t = function
          | v :: l2 ->
            (match l2 with
             | [] ->
+              let a1 = Z.to_nat a0 in
               (match kind_of c with
-               | Some k -> accept_kind t k (Z.to_nat a0) obj v
+               | Some k ->
+                 (match k with
+                  | KCall ->
+                    let t1 =
+                      if pc_eqb (t.ms.a (mactor t a1)).apc Exit
+                      then with_gens t (a1 :: t.gens)
+                      else t
+                    in
+                    accept_kind t1 KCall (mactor t1 a1) obj v
+                  | _ -> accept_kind t k (mactor t a1) obj v)
                | None -> None)
             | _ :: _ -> None))))
 
 (** val ainit : bool -> ast **)
 
 let ainit p =
-  { ms = (init p); chain = []; pend = []; pobj = Z0; robj = Z0 }
+  { ms = (init p); chain = []; pend = []; pobj = Z0; robj = Z0; gens = [] }
 
 (** val final_ok : ast -> bool **)
 
